@@ -516,7 +516,7 @@ def C15(chk):
 def C17(chk):
     q = chk.tier == "quick"
     rows = 2 if q else 3
-    cfg = ("SPECIFICATION Spec\nCONSTANTS\n  MaxRows = %d\nINVARIANT OneItemPerDataLine\nINVARIANT LineNumbers\n"
+    cfg = ("SPECIFICATION Spec\nCONSTANTS\n  MaxRows = %d\nINVARIANT OneItemPerDataLine\nINVARIANT LineNumbers\nINVARIANT UndecodableLinesReported\n"
            "INVARIANT RoundTrip\nINVARIANT CorruptionsRejected\nINVARIANT Emit\nCHECK_DEADLOCK FALSE\n" % rows)
     mc = plain_mc(chk, "MC_Csv", "c17", cfg)
     scratch = os.path.join(CACHE, "pvh-csv-%d" % os.getpid())
